@@ -303,7 +303,7 @@ type Server struct {
 	conns     map[uint32]*ConnState
 	nextID    uint32
 	seq       int64
-	events    []Event
+	events    []*Event
 	logging   bool
 	logPings  bool
 	closed    bool
@@ -370,15 +370,22 @@ func (s *Server) Events() []Event {
 	s.mu.Lock()
 	defer s.mu.Unlock()
 	out := make([]Event, len(s.events))
-	copy(out, s.events)
+	for i, e := range s.events {
+		out[i] = *e
+	}
 	return out
 }
 
-// TakeEvents returns the log and empties it.
+// TakeEvents returns the log and empties it. Every statement is logged BEFORE its reply is
+// written, so once a client has seen the reply the event is in the log; only the row
+// counters of a result that is still being written may be incomplete.
 func (s *Server) TakeEvents() []Event {
 	s.mu.Lock()
 	defer s.mu.Unlock()
-	out := s.events
+	out := make([]Event, len(s.events))
+	for i, e := range s.events {
+		out[i] = *e
+	}
 	s.events = nil
 	return out
 }
@@ -449,13 +456,28 @@ func (s *Server) acceptLoop() {
 	}
 }
 
-func (s *Server) logEvent(e Event) {
+// logEvent appends e to the log (if logging is on) and returns the logged entry, which
+// finishEvent may complete later.
+func (s *Server) logEvent(e Event) *Event {
 	s.mu.Lock()
+	defer s.mu.Unlock()
 	if s.logging && (e.Cmd != ComPing || s.logPings) {
 		s.seq++
 		e.Seq = s.seq
-		s.events = append(s.events, e)
+		p := &e
+		s.events = append(s.events, p)
+		return p
 	}
+	return nil
+}
+
+// finishEvent stores what was emitted for a logged statement.
+func (s *Server) finishEvent(p *Event, done *Event) {
+	if p == nil {
+		return
+	}
+	s.mu.Lock()
+	p.Rows, p.Bytes, p.RowHashes, p.ErrCode = done.Rows, done.Bytes, done.RowHashes, done.ErrCode
 	s.mu.Unlock()
 }
 
@@ -944,6 +966,7 @@ func (s *Server) serve(c *ConnState) {
 			if resp.Kind == KindRows {
 				// COM_FIELD_LIST reply: column definitions (with default) + EOF, no count, no rows
 				ev.Kind = KindRows
+				s.logEvent(ev)
 				var werr error
 				for _, col := range resp.Cols {
 					col.WithDefault = true
@@ -957,7 +980,6 @@ func (s *Server) serve(c *ConnState) {
 				if werr == nil {
 					werr = c.bw.Flush()
 				}
-				s.logEvent(ev)
 				if werr != nil {
 					return
 				}
@@ -967,8 +989,12 @@ func (s *Server) serve(c *ConnState) {
 			resp = Err(1047, "08S01", "Unknown command")
 		}
 		ev.Kind = resp.Kind
+		if resp.Kind == KindErr {
+			ev.ErrCode = resp.Code
+		}
+		logged := s.logEvent(ev) // before the reply: whoever sees the reply finds the event
 		closed, werr := c.writeResult(&resp, &ev)
-		s.logEvent(ev)
+		s.finishEvent(logged, &ev)
 		if closed || werr != nil {
 			return
 		}
